@@ -585,6 +585,15 @@ def roundtrip_objects(chk, quick):
                 objs.append((v, key, mode, o))
                 if not is_obs20(key, v):
                     members.append(o)
+                # ... and with the times the library generates itself (no created / modified / valid_from given: the wall clock, with microseconds)
+                gen_names = [p["name"] for p in g.types[key]["properties"] if p.get("default") == "NOW" and p["name"] in d]
+                if gen_names and not is_obs20(key, v) and rng.random() < (0.5 if quick else 1.0):
+                    kw = {k: val for k, val in copy.deepcopy(d).items() if k != "type" and k not in gen_names}
+                    try:
+                        import stix2.registry
+                        objs.append((v, key, mode + "+generated_times", stix2.registry.class_for_type(d["type"], v)(**kw)))
+                    except Exception:  # noqa  (e.g. a given time now earlier than a generated one: C03's business)
+                        pass
                 # the same content given the way a Python caller gives it: timestamps as datetime / STIXdatetime values that carry their own precision labels and finer digits
                 tprops = [p["name"] for p in g.types[key]["properties"] if p["kind"] == "timestamp" and isinstance(d.get(p["name"]), str)]
                 if tprops and not is_obs20(key, v) and rng.random() < (0.5 if quick else 1.0):
